@@ -45,8 +45,8 @@ func Checks() map[string]*simcore.Check {
 		"C14": mk("C14", "C14 adds 2-6 blocks with Copy() between transactions or inside a transaction at call depth 0 (original and copy get different suffixes, advanced alternately operation by operation, and are swept against their own models after every transaction of either), commit of the copy as a sibling state, flush, and clean restarts (journal or full flush) onto a fresh triedb/snapshot tree over the same SimKV. Oracle: Commit root == preceding IntermediateRoot == model root; the committed root opened through the default reader, the trie reader alone and the flat reader alone returns exactly the model's accounts, code and storage (plus absent keys); after a full flush the flat key space on disk equals the model. Non-trivial as C13.",
 			map[string]int{"quick": 5000, "thorough": 250000},
 			[]string{"frame-reverted", "copy-taken", "copy-committed-sibling", "restart-hash-1", "restart-hash-2", "restart-path-1", "restart-path-2", "read-via-flat-reader-hash", "read-via-flat-reader-path", "read-via-trie-reader", "flat-disk-compared", "destructed-with-prior-storage", "destructed-after-storage-cleared-in-block"}),
-		"C15": mk("C15", "C15 runs Amsterdam blocks (optionally after a pre-Amsterdam prefix that builds the starting state), few in-transaction sweeps. Oracle per transaction index: listed accounts == addresses named by any call of the tx (reverted frames included); balance/nonce/code change recorded iff the model value differs between tx start and end, with the post value, under exactly that index; storage writes == slots whose model value differs; reads: accessed-and-unchanged slots listed, nothing unaccessed listed, no slot both read and written. Block level: merged list in encoding form is sorted and duplicate-free, equals the model's expectation, Validate passes, RLP decode(encode(x)) re-encodes to the same bytes and the same hash.",
+		"C15": mk("C15", "C15 runs Amsterdam blocks (optionally after a pre-Amsterdam prefix that builds the starting state), few in-transaction sweeps, and system-call scopes driven like core/state_processor.go does (Prepare with zero sender, SetTxContext(zero hash, 0, index), warm target, operations, Finalise): 1-2 pre-execution scopes under block access index 0 and 1-3 post-execution scopes under index txCount+1, several scopes sharing an index and merged in order. Oracle per transaction index: listed accounts == addresses named by any call of the tx (reverted frames included); balance/nonce/code change recorded iff the model value differs between tx start and end, with the post value, under exactly that index; storage writes == slots whose model value differs; reads: accessed-and-unchanged slots listed, nothing unaccessed listed, no slot both read and written. Block level: merged list in encoding form is sorted and duplicate-free, equals the model's expectation, Validate passes, RLP decode(encode(x)) re-encodes to the same bytes and the same hash.",
 			map[string]int{"quick": 16000, "thorough": 800000},
-			[]string{"frame-reverted", "bal-balance-change", "bal-code-change", "bal-storage-write", "bal-storage-read", "bal-account-removed", "bal-block-list-checked", "amsterdam-destruct-balance-kept"}),
+			[]string{"frame-reverted", "bal-balance-change", "bal-code-change", "bal-storage-write", "bal-storage-read", "bal-account-removed", "bal-block-list-checked", "amsterdam-destruct-balance-kept", "system-scope-pre", "system-scope-post"}),
 	}
 }
